@@ -25,6 +25,7 @@ var Scenarios = map[string]func(seed int64, idx int) *Result{
 	"ctx":        RunCtx,
 	"validate":   RunValidate,
 	"commitsync": RunCommitSync,
+	"syncstorm":  RunSyncStorm,
 }
 
 // ChildMain runs cases [from,to) of a scenario and prints one "RT|{json}" line per case.
